@@ -20,6 +20,11 @@ def _h_make_accumulator(em, n, args, dst):
     return '%s_ctor1(%s, integrand_parameters((const struct integrand *)%s))' % (rti['ctype'], dst, em.arg(args[0], None))
 
 
+def _h_callback_call(em, n, args, dst):
+    # callback(chkpt) -> vp_callback_call(&chkpt): user code (or hep::callback), returns any bool
+    return 'vp_callback_call(%s)' % em.arg(args[1], None)
+
+
 def _h_integrand_call(em, n, args, dst):
     # integrand.function()(point[, projector])  ->  vp_integrand_call(&point[, &projector])
     al = [em.arg(a, None) for a in args[1:]]
@@ -131,6 +136,21 @@ RECIPES.update({
     'distribution_parameters_bin_size_y': dict(name='bin_size_y', cls='distribution_parameters', self='distribution_parameters'),
     'distribution_parameters_bins_x': dict(name='bins_x', cls='distribution_parameters', self='distribution_parameters'),
     'distribution_parameters_bins_y': dict(name='bins_y', cls='distribution_parameters', self='distribution_parameters'),
+})
+
+_DRV_OPTS = dict(operator_calls={('vpinst_PCb', 'operator()'): _h_callback_call, ('vpinst_VCb', 'operator()'): _h_callback_call, ('vpinst_MCb', 'operator()'): _h_callback_call})
+RECIPES.update({
+    'plain': dict(unit='drivers', name='plain', sel='vpinst::PCb', opts=dict(_DRV_OPTS, rename={'vp_rng_chkpt_plain_result_copy': 'vp_chk_copy_abs'})),
+    'vegas': dict(unit='drivers', name='vegas', sel='vpinst::VCb', opts=dict(_DRV_OPTS, rename={'vp_rng_vegas_chkpt_copy': 'vp_chk2_copy_abs'})),
+    'multi_channel': dict(unit='drivers', name='multi_channel', sel='vpinst::MCb', opts=dict(_DRV_OPTS, rename={'vp_rng_multi_channel_chkpt_copy': 'vp_chk2_copy_abs'})),
+})
+
+RECIPES.update({
+    'rng_vegas_chkpt_add': dict(unit='chkpt', name='add', cls='chkpt_with_rng', cls_targs_has='vegas_chkpt', self='rng_vegas_chkpt'),
+    'rng_vegas_chkpt_generator': dict(unit='chkpt', name='generator', cls='chkpt_with_rng', cls_targs_has='vegas_chkpt', self='rng_vegas_chkpt'),
+    'rng_multi_channel_chkpt_add': dict(unit='chkpt', name='add', cls='chkpt_with_rng', cls_targs_has='multi_channel_chkpt', self='rng_multi_channel_chkpt'),
+    'rng_multi_channel_chkpt_generator': dict(unit='chkpt', name='generator', cls='chkpt_with_rng', cls_targs_has='multi_channel_chkpt', self='rng_multi_channel_chkpt'),
+    'multi_channel_integrand_channels': dict(unit='drivers', name='channels', cls='multi_channel_integrand', self='multi_channel_integrand'),
 })
 
 # ---- fragments: single expressions inside the MPI drivers -----------------------------------
@@ -297,6 +317,29 @@ JOBS = [
          defines=['VP_BINSMAX=1048576', 'VP_DIMSMAX=1024'], props=['C07'], split='auto',
          assumptions=['C07.safe hypothesis: the redistribution search stops inside the grid (bin < bins assumed at each step)', 'libm pow/log: assumed contracts',
                       'the new grid is observed through one arbitrary ghost boundary (abstraction documented in specs/vegas_refine_pdf.spec)']),
+    dict(name='plain_driver', functions=['plain', 'plain_iteration', 'rng_chkpt_plain_result_add', 'rng_chkpt_plain_result_generator'],
+         specs=['plain', 'iteration_abs', 'chkpt_abs'], harness_sections=['plain'], entry='h_plain', enforce='plain',
+         replace=['plain_iteration', 'rng_chkpt_plain_result_add', 'rng_chkpt_plain_result_generator'], stub_bodies=['plain_iteration', 'rng_chkpt_plain_result_add', 'rng_chkpt_plain_result_generator'],
+         structs=_ST_CHK + [dict(cname='vpinst_Fn', opaque=True), dict(unit='drivers', cls='integrand', cname='integrand'), dict(cname='vpinst_PCb', opaque=True)],
+         preludes=['opaque.h'], late_preludes=['stubs_cb.h'], globals='size_t vp_cb_calls, vp_cb_seen_n; _Bool vp_cb_ret; const void *vp_cb_arg; size_t vp_it_count, vp_it_calls; const void *vp_it_gen; size_t vp_g_done; size_t vp_chk_last_gen, vp_add_calls; const void *vp_add_result;',
+         defines=['VP_ITMAX=65536', 'VP_NMAX=1048576'], props=['C12', 'C03', 'C19'], trusted=['the callback is user code (or hep::callback, whose decision is the callback_decision job): nondeterministic stub']),
+    dict(name='vegas_driver', functions=['vegas', 'vegas_iteration', 'rng_vegas_chkpt_add', 'rng_vegas_chkpt_generator', 'vegas_chkpt_pdf', 'vegas_chkpt_dimensions', 'integrand_dimensions'],
+         specs=['vegas', 'drivers_abs'], harness_sections=['vegas'], entry='h_vegas', enforce='vegas',
+         replace=['vegas_iteration', 'rng_vegas_chkpt_add', 'rng_vegas_chkpt_generator', 'vegas_chkpt_pdf', 'vegas_chkpt_dimensions'],
+         stub_bodies=['vegas_iteration', 'rng_vegas_chkpt_add', 'rng_vegas_chkpt_generator', 'vegas_chkpt_pdf', 'vegas_chkpt_dimensions'],
+         structs=_ST_VCHK + [dict(prelude='rngvec.h'), dict(unit='chkpt', cls='chkpt_with_rng', cls_targs_has='vegas_chkpt', cname='rng_vegas_chkpt'),
+                             dict(cname='vpinst_Fn', opaque=True), dict(unit='drivers', cls='integrand', cname='integrand'), dict(cname='vpinst_VCb', opaque=True)],
+         preludes=['opaque.h'], late_preludes=['stubs_cb2.h'], globals='size_t vp_cb_calls, vp_cb_seen_n; _Bool vp_cb_ret; const void *vp_cb_arg; size_t vp_it_count, vp_it_calls; const void *vp_it_gen; size_t vp_g_done; size_t vp_chk_last_gen, vp_add_calls; const void *vp_add_result; size_t vp_state_calls, vp_setup_calls, vp_setup_arg; const void *vp_state_obj, *vp_it_state, *vp_it_result;',
+         defines=['VP_ITMAX=65536', 'VP_NMAX=1048576'], props=['C12', 'C03', 'C19'], trusted=['the callback is user code: nondeterministic stub']),
+    dict(name='multi_channel_driver', functions=['multi_channel', 'multi_channel_iteration', 'rng_multi_channel_chkpt_add', 'rng_multi_channel_chkpt_generator', 'multi_channel_chkpt_channel_weights', 'multi_channel_chkpt_channels', 'multi_channel_integrand_channels'],
+         specs=['multi_channel', 'drivers_abs'], harness_sections=['multi_channel'], entry='h_multi_channel', enforce='multi_channel',
+         replace=['multi_channel_iteration', 'rng_multi_channel_chkpt_add', 'rng_multi_channel_chkpt_generator', 'multi_channel_chkpt_channel_weights', 'multi_channel_chkpt_channels'],
+         stub_bodies=['multi_channel_iteration', 'rng_multi_channel_chkpt_add', 'rng_multi_channel_chkpt_generator', 'multi_channel_chkpt_channel_weights', 'multi_channel_chkpt_channels'],
+         structs=_ST_MCHK + [dict(prelude='rngvec.h'), dict(unit='chkpt', cls='chkpt_with_rng', cls_targs_has='multi_channel_chkpt', cname='rng_multi_channel_chkpt'),
+                             dict(cname='vpinst_Fn', opaque=True), dict(unit='drivers', cls='integrand', cname='integrand'), dict(cname='vpinst_Map', opaque=True),
+                             dict(unit='drivers', cls='multi_channel_integrand'), dict(cname='vpinst_MCb', opaque=True)],
+         preludes=['opaque.h'], late_preludes=['stubs_cb2.h'], globals='size_t vp_cb_calls, vp_cb_seen_n; _Bool vp_cb_ret; const void *vp_cb_arg; size_t vp_it_count, vp_it_calls; const void *vp_it_gen; size_t vp_g_done; size_t vp_chk_last_gen, vp_add_calls; const void *vp_add_result; size_t vp_state_calls, vp_setup_calls, vp_setup_arg; const void *vp_state_obj, *vp_it_state, *vp_it_result;',
+         defines=['VP_ITMAX=65536', 'VP_NMAX=1048576'], props=['C12', 'C03', 'C19'], trusted=['the callback is user code: nondeterministic stub']),
     dict(name='refine_weights', functions=['multi_channel_refine_weights'], entry='h_multi_channel_refine_weights',
          enforce='multi_channel_refine_weights', replace=['vp_pow'], af=['multi_channel_refine_weights'], globals='T vp_g_s1, vp_g_s2; _Bool vp_g_nodata;',
          defines=['VP_NMAX=1048576'], props=['C08'], thorough_reals=['float'],
